@@ -118,6 +118,14 @@ fn exec<B: Backend>(p: P, keys: &Keys) -> ExecEnd {
         per_reader[c % p.readers].push(Chan { id, key, seal, msgs });
     }
 
+    // An id that is no longer in the table: removing it again must change nothing.
+    let mut dead_ids: Vec<LocalChannelId> = Vec::new();
+    if let Ok(id) = writer.add(B::open_side(&keys[0]), keys[0].label, keys[0].sealer) {
+        if writer.remove(id).is_ok() {
+            dead_ids.push(id);
+        }
+    }
+
     let mut hs = Vec::new();
     // ---- the managing writer
     {
@@ -132,7 +140,7 @@ fn exec<B: Backend>(p: P, keys: &Keys) -> ExecEnd {
                 if sim::has_violation() {
                     return;
                 }
-                let what = if live.is_empty() { 3 } else { sim::rand_below(4) };
+                let what = if live.is_empty() { 3 } else { sim::rand_below(5) };
                 // which channels this operation covers
                 let covered: Vec<LocalChannelId> = match what {
                     0 => vec![live[sim::rand_below(live.len() as u64) as usize].0],
@@ -163,6 +171,17 @@ fn exec<B: Backend>(p: P, keys: &Keys) -> ExecEnd {
                     2 => {
                         sim::log_event(t, "remove_all");
                         writer.remove_all().map_err(|e| e.to_string())
+                    }
+                    // removal of a channel that is not in the table (removed earlier): a no-op
+                    4 => {
+                        if dead_ids.is_empty() {
+                            Ok(())
+                        } else {
+                            let id = dead_ids[sim::rand_below(dead_ids.len() as u64) as usize];
+                            sim::log_event(t, &format!("remove {id} (absent)"));
+                            sim::count("noop_removals");
+                            writer.remove(id).map_err(|e| e.to_string())
+                        }
                     }
                     _ => {
                         let k = sim::rand_below(nkeys as u64) as usize;
@@ -201,6 +220,7 @@ fn exec<B: Backend>(p: P, keys: &Keys) -> ExecEnd {
                     sim::count("removals");
                 }
                 live.retain(|(i, _)| !covered.contains(i));
+                dead_ids.extend(covered.iter().copied());
             }
         }));
     }
